@@ -27,6 +27,7 @@ Inductive input :=
 | IReader (r : reader_in)
 | ISnap (r : reader_in)                     (* _copy_content / gather_details of an unbuffered content (r_buffer unused) *)
 | ISnapList (r : snaplist_in)               (* ... of a content over an in-memory list *)
+| IReaderList (buffer : bool) (r : snaplist_in)   (* content_from_reader(callback over such a list, ct, buffer_now) *)
 | IEq (ta : ctype) (ca : list chunk) (tb : ctype) (cb : list chunk)
 | IMime (ct : ctype).                       (* _make_content_type(repr(ct)) *)
 
@@ -43,6 +44,7 @@ Inductive obs :=
           (it1 : bres) (read1 : bool) (it2 : bres) (read2 : bool)
 | OSnap (copied : option exn) (same_type : bool) (c1 c2 : bres) (read_after : bool) (orig : bres)
 | OSnapList (same_type : bool) (c1 c2 : bres) (orig : bres)
+| OReaderList (it1 it2 : bres)
 | OEq (eq ne : bool)
 | OMime (echo : ctype) (r : res ctype perr).    (* the content type that went in, and what came back *)
 
@@ -187,6 +189,10 @@ Definition snaplist_okb (r : snaplist_in) (same : bool) (c1 c2 orig : bres) : bo
   same && joined_okb c1 (Ok (concat (sl_buf r))) && joined_okb c2 (Ok (concat (sl_buf r)))
   && joined_okb orig (Ok (concat (if sl_tuple r then sl_buf r else apply_ops (sl_ops r) (sl_buf r)))).
 
+(* content_from_reader over a list: buffer_now fixes the bytes at creation, otherwise the list as it is when iterated *)
+Definition readerlist_bytes (buffer : bool) (r : snaplist_in) : list N :=
+  concat (if buffer || sl_tuple r then sl_buf r else apply_ops (sl_ops r) (sl_buf r)).
+
 Definition sum_runs {A} (l : list (A * nat)) : nat := fold_right (fun p a => snd p + a) 0 l.
 
 Definition spec_okb (i : input) (o : obs) : bool :=
@@ -203,6 +209,8 @@ Definition spec_okb (i : input) (o : obs) : bool :=
   | IReader r, OReader created rc it1 r1 it2 r2 => reader_okb r created rc it1 r1 it2 r2
   | ISnap r, OSnap copied same c1 c2 ra orig => snap_okb r copied same c1 c2 ra orig
   | ISnapList r, OSnapList same c1 c2 orig => snaplist_okb r same c1 c2 orig
+  | IReaderList b r, OReaderList it1 it2 =>
+      joined_okb it1 (Ok (readerlist_bytes b r)) && joined_okb it2 (Ok (readerlist_bytes b r))
   | IEq ta ca tb cb, OEq e ne =>
       Bool.eqb e (ct_eqb ta tb && bytes_eqb (concat ca) (concat cb)) && Bool.eqb ne (negb e)
   | IMime ct, OMime echo r => ctype_eqb echo ct && survives ct r
@@ -292,6 +300,8 @@ Definition Spec (i : input) (o : obs) : Prop :=
   | ISnapList r, OSnapList same c1 c2 orig =>
       same = true /\ JoinedOk c1 (Ok (concat (sl_buf r))) /\ JoinedOk c2 (Ok (concat (sl_buf r)))
       /\ JoinedOk orig (Ok (concat (if sl_tuple r then sl_buf r else apply_ops (sl_ops r) (sl_buf r))))
+  | IReaderList b r, OReaderList it1 it2 =>
+      JoinedOk it1 (Ok (readerlist_bytes b r)) /\ JoinedOk it2 (Ok (readerlist_bytes b r))
   | IEq ta ca tb cb, OEq e ne =>
       (e = true <-> CtSame ta tb /\ concat ca = concat cb) /\ ne = negb e
   | IMime ct, OMime echo r => echo = ct /\ exists ct', r = Ok ct' /\ CtSame ct' ct
